@@ -26,7 +26,7 @@ EXPLANATION = (
     "{1,2,3,5,6}; R4 subscribe() is guarded by enabled and subscribes (cob_id, on_message), read ends in subscribe() on "
     "every normal path; R5 optional sub-entries read under >= 254; R6 predefined COB-IDs base+0x100*n+id for n<4 with "
     "bases 0x200/0x180; R7 load_configuration reads from the dictionary then saves, generic loop skips 0x1400-0x1BFF; "
-    "R8 the dictionary value source prefers value over default by `is not None` (0 is a legal value); R11 ODVariable.__len__ per data type (default mapping length; shared with C04.R5); R10 structural assumptions shared by all properties: no class-level mutable object is mutated in place by instances, no method re-runs the constructor, logging statements cannot raise (typed eager formatting, divisions), no mutable default argument is kept or mutated, no new truth-value test of a None-able number."
+    "R8 the dictionary value source prefers value over default by `is not None` (0 is a legal value); R11 ODVariable.__len__ per data type (default mapping length; shared with C04.R5); R10 structural assumptions shared by all properties: no class-level mutable object is mutated in place by instances, no method re-runs the constructor, logging statements cannot raise (typed eager formatting, divisions), no mutable default argument is kept or mutated, no new truth-value test of a None-able number, a look-up memory the pinned tree does not have is keyed by all its inputs (arithmetic keys folded over a grid of addresses) and, on the serving side, emptied somewhere."
     ' R6 also: PdoMaps.__init__ covers all 512 communication records; R2 also: every mapping entry is a new PdoVariable.'
     ' R10 includes the lock clauses (no SDO exchange while holding a lock a receive callback takes).'
 )
